@@ -142,6 +142,20 @@ pub fn eval(p: &Program, s: &mut Source, ctx: &Ctx) -> CaseInfo {
             return info;
         }
     }
+    // (A') the constraints as a user reads them: LResult::constraints() / is_constrained() of
+    // every query variable must report exactly the stored constraints that mention a reified
+    // variable of that query variable's term (the answers above are read from the reified store)
+    for (a, m) in out.answers.iter().zip(out.meta.iter()) {
+        for (i, ((n, isc), exp)) in m.reported.iter().zip(m.expected_reported.iter()).enumerate() {
+            if *n != *exp || *isc != (*exp > 0) {
+                info.fail(
+                    "C02:constraint-not-visible-through-LResult",
+                    format!("{}\n  answer {}: query variable {}: constraints() returned {} (is_constrained={}), but {} stored constraint(s) mention a reified variable occurring in it", desc, run::show_answer(a), i, n, isc, exp),
+                );
+                return info;
+            }
+        }
+    }
     // (B) ground tuples: P ∧ q == g has an answer  <=>  reference holds(P, g)  <=>  g is an
     // instance of some answer
     let ntuples = 6;
